@@ -7,6 +7,7 @@ from bellows.exception import EzspError
 
 from .. import e3
 from .. import refash as R
+from ..ncpmodel import St as ncp_St
 from ..tape import NullTape
 
 ID = "C10"
@@ -32,7 +33,7 @@ ASSUMPTIONS = [
     "bound for calls in progress: 10 s command timeout + 16 s (five ACK timeouts of at most 3.2 s) + 0.5 s slack after the injection",
 ]
 PROBES = ["faulty_link_before_injection", "failure_frame_destroyed_by_line", "threaded.runs", "threaded.preempted_in_proxy", "kind.error", "kind.rstack", "kind.silent", "kind.lost", "kind.eof", "kind.close", "workload.idle", "workload.one", "workload.queued",
-          "workload.reset", "workload.startup", "reported", "reported_twice", "silent_detected_by_retries", "silent_during_reset_timeout", "silent_but_nak.nak", "silent_but_nak.naklast",
+          "workload.reset", "workload.startup", "reported", "reported_twice", "silent_detected_by_retries", "silent_during_reset_timeout", "silent_but_nak.nak", "silent_but_nak.naklast", "silent_but_chatty",
           "data_received_raised", "inject_at_timer_deadline", "calls_in_progress_at_injection", "caller_cancelled_after_injection", "failure_before_registration", "registry_history.overlap", "registry_history.churn", "registry_history.both", "command_after_report_raised_other_than_ezsp_error", "sched.batch", "sched.reorder", "sched.join"]
 
 WORKLOADS = ("idle", "one", "queued", "reset", "startup")
@@ -73,7 +74,7 @@ def plan(tier):
                         sweeps.append(("inject", {"workload": w, "kind": kind, "code": codes[0], "at": at, "sched": False, "hist": h}))
                 if kind == "silent" and w in ("idle", "one", "queued") and at in pts[::3]:
                     # an NCP that stops acknowledging without going quiet: every DATA frame (or only the last copy of one) is answered with a NAK
-                    for deaf in ("nak", "naklast"):
+                    for deaf in ("nak", "naklast", "chatty"):
                         sweeps.append(("inject", {"workload": w, "kind": kind, "code": None, "at": at, "sched": False, "deaf": deaf}))
                 if kind == "silent" and w in ("idle", "one", "queued"):
                     # the callers give up (are cancelled) while the link layer is still retrying: the failure must be reported all the same
@@ -122,7 +123,7 @@ def run(scenario, params, tape, detail=False):
         code = RST_CODES[tape.draw(len(RST_CODES), "code")]
     prefail = kind != "silent" and scenario not in ("faulty", "history") and tape.draw(5, "prefail") == 4
     hist = HISTORIES[1 + tape.draw(len(HISTORIES) - 1, "hist")] if scenario == "history" else None
-    deaf = (None, "nak", "naklast")[tape.draw(3, "deaf")] if kind == "silent" and scenario == "random" else None
+    deaf = (None, "nak", "naklast", "chatty")[tape.draw(4, "deaf")] if kind == "silent" and scenario == "random" else None
     return run_one(w, kind, code, ("draw",), tape, True, detail, faulty=(scenario == "faulty"), prefail=prefail, hist=hist, deaf=deaf)
 
 
@@ -207,6 +208,20 @@ def run_one(workload, kind, code, at, tape, sched, detail, dry=False, faulty=Fal
                 nash.force_error(code)
         elif kind == "rstack":
             nash.do_reset(code)
+        elif kind == "silent" and deaf == "chatty":
+            # the NCP stops ACKNOWLEDGING (its receive side is stuck) but is not mute: it keeps sending new in-sequence DATA frames
+            # (callbacks, ackNum frozen), closer together than the acknowledgement timeout, and the host dutifully acknowledges them
+            probe("silent_but_chatty")
+            nash.deaf = True
+            nash._cancel_ack_timer()
+
+            def chatter(n=[0]):
+                if nash.failed is None and rig.transport is not None and not rig.transport.lost_called and n[0] < 400:
+                    n[0] += 1
+                    ncp.callback("stackStatusHandler", (ncp_St("NETWORK_UP"),))
+                    loop.external(loop.time() + 0.3, chatter, group=None)
+
+            loop.external(loop.time() + 0.05, chatter, group=None)
         elif kind == "silent":
             nash.silent = True
             nash.silent_mode = deaf
